@@ -97,7 +97,19 @@ func ZZ_C14_function_operators() {
 	swap := zz.Flag("swap")
 	var a, k uint32
 	var av float64
-	if op == BinaryModulo {
+	edge := op == BinaryDivide && zz.Choice("division-operands", 2) == 1
+	if edge {
+		// quotients a hair below an integer: a = q*k - 1 for large divisors k (concrete table;
+		// rounding instead of truncating the float quotient shows only here)
+		kk := []uint32{2000000, 3000000, 1000001, 16777216, 715827883}[zz.Choice("edge-divisor", 5)]
+		q := uint32(zz.Choice("edge-quotient", 3) + 1)
+		zz.Assume(uint64(q)*uint64(kk) <= 0x7FFFFFFF)
+		a, k, av = q*kk-1, kk, float64(q*kk-1)
+		if signed && zz.Flag("edge-negative") {
+			a = uint32(-int32(a))
+			av = float64(int32(a))
+		}
+	} else if op == BinaryModulo {
 		// bound: 8-bit operands (the remainder goes through a float division, truncation,
 		// multiplication and subtraction; the solvers decide the residual float terms only
 		// at this width)
@@ -247,6 +259,64 @@ func ZZ_C14_function_operators() {
 		}
 	default:
 		zz.Fail("use site is neither a literal nor the operator after override substitution")
+	}
+	zz.Reach("end")
+}
+
+// A derived override whose initialiser chains an integer division with a multiplication:
+// b = a / k1 * k2. Integer division truncates at every step ((7 / 2) * 2 is 6, not 7).
+// Bounds: a 16 bits, k1 8 bits (k1 != 0), k2 in {2, 3, 7, -2, 100}, i32 or u32.
+func ZZ_C14_derived_division_chain() {
+	signed := zz.Flag("signed")
+	var a, k1, k2 uint32
+	var av float64
+	// the multiplier is one of a few constants (a symbolic multiplier after a symbolic
+	// division at two different widths is beyond the solvers)
+	mult := []int32{2, 3, 7, -2, 100}[zz.Choice("k2", 5)]
+	if signed {
+		ai, k1i := int32(zz.I16("a")), int32(zz.I8("k1"))
+		a, k1, k2, av = uint32(ai), uint32(k1i), uint32(mult), float64(ai)
+	} else {
+		zz.Assume(mult > 0)
+		au, k1u := uint32(zz.U16("a")), uint32(zz.U8("k1"))
+		a, k1, k2, av = au, k1u, uint32(mult), float64(au)
+	}
+	zz.Assume(k1 != 0)
+	ty := TypeHandle(2)
+	if signed {
+		ty = 1
+	}
+	lit := func(bits uint32) LiteralValue {
+		if signed {
+			return LiteralI32(int32(bits))
+		}
+		return LiteralU32(bits)
+	}
+	m := &Module{Types: zzTypes()}
+	m.GlobalExpressions = []Expression{
+		{Kind: Literal{Value: lit(3)}},                            // 0 default of a
+		{Kind: ExprOverride{Override: 0}},                         // 1
+		{Kind: Literal{Value: lit(k1)}},                           // 2
+		{Kind: ExprBinary{Op: BinaryDivide, Left: 1, Right: 2}},   // 3
+		{Kind: Literal{Value: lit(k2)}},                           // 4
+		{Kind: ExprBinary{Op: BinaryMultiply, Left: 3, Right: 4}}, // 5
+	}
+	m.Overrides = []Override{
+		{Name: "a", Ty: ty, ID: zzU16p(1), Init: zzEHp(0)},
+		{Name: "b", Ty: ty, Init: zzEHp(5)},
+	}
+	var want uint32
+	if signed {
+		want = uint32((int32(a) / int32(k1)) * int32(k2))
+	} else {
+		want = (a / k1) * k2
+	}
+	err := ProcessOverrides(m, PipelineConstants{"1": av})
+	zz.Assert(err == nil, "unexpected error")
+	if err == nil {
+		got, ok := zzConstLiteral(m, "b")
+		zz.Assert(ok, "derived override did not resolve to a literal")
+		zz.Assert(zz.Same(got, lit(want)), "derived override differs from WGSL evaluation of (a / k1) * k2")
 	}
 	zz.Reach("end")
 }
